@@ -147,6 +147,7 @@ pub struct CanaryReport {
     pub tid_seam_live: bool,
     pub memstat_seam_live: bool,
     pub rusage_seam_live: bool,
+    pub timed_wait_seam_live: bool,
     pub urandom_seam_live: bool,
     pub distinct_outputs: usize,
     /// "0,1;0,2,1;…" per canary key, as the real process printed it
@@ -167,6 +168,7 @@ pub fn exec_canary(args: &Args) -> CanaryReport {
         tid_seam_live: false,
         memstat_seam_live: false,
         rusage_seam_live: false,
+        timed_wait_seam_live: false,
         urandom_seam_live: false,
         distinct_outputs: 0,
         orders_per_key: vec![],
@@ -260,15 +262,17 @@ pub fn exec_canary(args: &Args) -> CanaryReport {
     ident.clock_step_ns = 777;
     ident.pid = 31_337;
     ident.rss_kib = 123_456;
+    ident.wait_ppm = 0;
     if let Ok((o, log)) = sim_exec::launch_program(&env, &args.canary, &[], &dir, &dir, Colour::NoColor, &ident, "ci") {
         let text = String::from_utf8_lossy(&o.stdout).into_owned();
         report.clock_pid_live = text.contains("wall=1234567890")
             && text.contains("dt=777")
             && text.contains("pid=31337")
-            && log.clock_reads == 3;
+            && log.clock_reads >= 3;
         report.tid_seam_live = text.contains("tid=31337");
         report.memstat_seam_live = text.contains("VmRSS:=123456=kB");
         report.rusage_seam_live = text.contains("maxrss=123456");
+        report.timed_wait_seam_live = text.contains("slept_ms=50") && text.contains("waited_ms=30");
         // /dev/urandom starts with the plan's key
         let k = &ident.key;
         report.urandom_seam_live = text.contains(&format!("urandom={:02x}{:02x}{:02x}{:02x}", k[0], k[1], k[2], k[3]));
@@ -743,6 +747,7 @@ pub fn run_main(args: &Args) -> i32 {
             "thread_id_seam_live": canary.tid_seam_live,
             "memory_statistics_seam_live": canary.memstat_seam_live,
             "resource_accounting_seam_live": canary.rusage_seam_live,
+            "timed_wait_seam_live": canary.timed_wait_seam_live,
             "dev_urandom_seam_live": canary.urandom_seam_live,
             "inproc_entropy_seam_live": ip_live,
             "inproc_entropy_seam_repeatable": ip_repeatable,
